@@ -39,17 +39,18 @@ Definition aux_obs (m : option auxmap) : list Z :=
 
 Definition dump (s : hsketch) : list Z :=
   let lgk := sk_lgk s in
-  let slots := Nseq 0 (N.to_nat (2 ^ lgk)) in
+  (* the slot list is built only in array mode (a list-mode sketch of lg_k 21 must not pay for 2^21 slots) *)
+  let slots (_ : unit) := Nseq 0 (N.to_nat (2 ^ lgk)) in
   match sk_mode s with
   | MList l t => [0; Nz lgk; tgt_code t; Nz (hl_lg l); Nz (hl_len l)] ++ map Nz (sortN (list_iter l))
   | MSet st t => [1; Nz lgk; tgt_code t; Nz (hs_lg st); Nz (hs_len st)] ++ map Nz (sortN (set_iter st))
   | MArr4 a =>
-      match a4_values a slots with
+      match a4_values a (slots tt) with
       | Ok vs => [2; Nz lgk; 0; Nz (a4_cur_min a); Nz (a4_num a)] ++ hip_obs (a4_est a) ++ aux_obs (a4_aux a) ++ vs
       | _ => PANIC
       end
-  | MArr6 a => [2; Nz lgk; 1; 0; Nz (a6_nz a)] ++ hip_obs (a6_est a) ++ [0] ++ map (fun j => Nz (a6_get a j)) slots
-  | MArr8 a => [2; Nz lgk; 2; 0; Nz (a8_nz a)] ++ hip_obs (a8_est a) ++ [0] ++ map (fun j => Nz (a8_get a j)) slots
+  | MArr6 a => [2; Nz lgk; 1; 0; Nz (a6_nz a)] ++ hip_obs (a6_est a) ++ [0] ++ map (fun j => Nz (a6_get a j)) (slots tt)
+  | MArr8 a => [2; Nz lgk; 2; 0; Nz (a8_nz a)] ++ hip_obs (a8_est a) ++ [0] ++ map (fun j => Nz (a8_get a j)) (slots tt)
   end.
 
 Definition raw (s : hsketch) : list Z :=
